@@ -46,6 +46,9 @@ ExprPositions == <<
   <<"for k, v in ext1(", ") do end">>, <<"for k, v in ", ", t do end">>,
   <<"ext1(-", ")">>, <<"ext1(not ", ")">>, <<"ext1(#", ")">>, <<"ext1(1 + ", ")">>, <<"ext1(", " .. 's')">>,
   <<"ext1(", " and 1 or 2)">>, <<"ext1((", "))">>,
+  \* the RIGHT operand of every binary operator family (unparenthesised), also at the end of a chain and of a compound assignment
+  <<"ext1('s' .. ", ")">>, <<"ext1(a .. b .. ", ")">>, <<"ext1(2 ^ ", ")">>, <<"ext1(a and ", ")">>, <<"ext1(a or ", ")">>, <<"ext1(a == ", ")">>,
+  <<"ext1(a < ", ")">>, <<"ext1(a * ", ")">>, <<"a ..= ", "">>, <<"a ..= 's' .. ", "">>, <<"return 's' .. ", "">>,
   <<"ext1(function() return ", " end)">>, <<"ext1(function() ext1(", ") end)">>,
   <<"local function g(p) return ", " end">>, <<"function t.f(p) return p, ", " end">>, <<"function t:mm() return ", " end">>,
   <<"a += ", "">>, <<"t[", "] += 1">>,
@@ -109,7 +112,7 @@ StmtPositions == <<
 Wrappers == <<
   <<"(", ")">>, <<"-", "">>, <<"not ", "">>, <<"{", "}">>, <<"{k = ", "}">>, <<"{[", "] = 1}">>, <<"ext1(", ")">>, <<"t[", "]">>, <<"t[", "].k">>,
   <<"function() return ", " end">>, <<"(function() return ", " end)()">>, <<"function() ext1(", ") end">>,
-  <<"if c then ", " else nil">>, <<"if ", " then 1 else 2">>, <<"`{", "}`">>, <<"`a{b}{", "}`">>, <<"", " :: any">>, <<"", " .. 'x'">>, <<"1 + ", "">>,
+  <<"if c then ", " else nil">>, <<"if ", " then 1 else 2">>, <<"`{", "}`">>, <<"`a{b}{", "}`">>, <<"", " :: any">>, <<"", " .. 'x'">>, <<"'x' .. ", "">>, <<"1 + ", "">>,
   <<"", " and 1 or 2">>, <<"", " // 2">>, <<"t:m(", ")">>, <<"ext1 { ", " }">>, <<"ext1(1, ", ", 2)">>, <<"{1, ", "; 2}">> >>
 
 Prelude == "local a, b, c, t = ext1(), ext1(), ext1(), extt()\n"
